@@ -170,6 +170,9 @@ def session_class():
             b = self.behave("onLeave")
             if b == "raise_before":
                 raise RuntimeError("user onLeave failed early")
+            if b == "keep":
+                # user override that keeps the transport (e.g. to join() again on it)
+                return None
             r = Base.onLeave(self, details)
             if b == "raise":
                 raise RuntimeError("user onLeave failed")
